@@ -2,8 +2,8 @@
     Only statements; proofs are [exact <lemma>] or a computation on the
     constant regenerated from /repo's sources. *)
 Require Import AT.Model.Base AT.Model.Heap AT.Model.Mutate.
-Require AT.Proofs.MutLockstep.
-Import AT.Proofs.MutLockstep.
+Require AT.Proofs.MutLockstep AT.Proofs.MutHistory AT.Proofs.LockstepHistory.
+Import AT.Proofs.MutLockstep AT.Proofs.MutHistory AT.Proofs.LockstepHistory.
 
 (** For every call whose arguments are tree nodes, under every fault oracle,
     assertion setting and fuel, from every state: the two mixins' setters are
@@ -12,6 +12,19 @@ Theorem C18_lockstep : forall asrt faults fuel o, node_op o ->
   forall s, run_op true asrt faults fuel o s = run_op false asrt faults fuel o s.
 Proof. exact run_op_same. Qed.
 Print Assumptions C18_lockstep.
+
+(** ... and so for every history of such calls (each call with its own fault
+    oracle, assertion setting and fuel), from every forest: every call's
+    outcome, its hook log and the forest it leaves are the same for the two
+    mixins - at every point of the history, not only at its end *)
+Theorem C18_lockstep_histories : forall cs h, node_history cs -> trace true h cs = trace false h cs.
+Proof. exact trace_same. Qed.
+Print Assumptions C18_lockstep_histories.
+
+Theorem C18_lockstep_final_forest : forall cs h, node_history cs ->
+  fold_left (step true) cs h = fold_left (step false) cs h.
+Proof. exact history_same. Qed.
+Print Assumptions C18_lockstep_final_forest.
 
 (** The read-only queries (navigation attributes, iterators, Walker, Resolver,
     RenderTree) have ONE Gallina function each: the query model takes a tree and
@@ -27,3 +40,10 @@ Example C18_example :
   node_op (SetChildren 0 (CList [VNode 1; VNode 1])) /\
   fst (run_op false false no_faults reentry_fuel (SetChildren 0 (CList [VNode 1; VNode 1])) (start (init 2))) = Err TreeError.
 Proof. split; [|reflexivity]. simpl. repeat constructor; eauto. Qed.
+
+Example C18_history_example :
+  let cs := [ {| c_op := SetParent 1 (VNode 0); c_faults := no_faults; c_asrt := false; c_fuel := reentry_fuel |};
+              {| c_op := SetChildren 2 (CList [VNode 0]); c_faults := no_faults; c_asrt := true; c_fuel := reentry_fuel |};
+              {| c_op := SetParent 2 (VNode 1); c_faults := no_faults; c_asrt := false; c_fuel := reentry_fuel |} ] in
+  node_history cs /\ map (fun x => fst (fst x)) (trace false (init 3) cs) = [Ok tt; Ok tt; Err LoopError].
+Proof. cbv zeta. split; [repeat constructor; simpl; eauto|vm_compute; reflexivity]. Qed.
